@@ -177,6 +177,22 @@ def run(ctx):
                 r.samples.append(key)
         r.traces += nsp
         r.nontrivial += nsp
+    # the same spoke locations given with an integer dtype (a valid "spoke location set"): the result must not depend on the dtype
+    for kint in (np.array([[1, 0], [-1, 0], [0, 1], [0, -1], [0, 0]]), np.array([[2, -1]]), np.array([[3, 3], [-2, 5]], dtype=np.int32)):
+        for dgdt, dt in UNITS[:2]:
+            gmax = 4.0 * dgdt * dt * 50
+            args = (4.0, 0.5, gmax, dgdt, dt)
+            r.evaluations += 1
+            try:
+                gi = rf.spokes_grad(kint, *args)
+                gf = rf.spokes_grad(kint.astype(np.float64), *args)
+            except Exception as e:
+                r.violations.append(core.Violation(["C20"], "trap", {"kind": "exception", "fn": "spokes_grad", "k_dtype": str(kint.dtype)}, "spokes_grad raised %r for integer spoke locations %s" % (e, kint.tolist()), {}))
+                continue
+            if gi.shape != gf.shape or not np.allclose(gi, gf, rtol=1e-12, atol=0):
+                r.violations.append(core.Violation(["C20"], "trap", {"kind": "kspace_increment", "fn": "spokes_grad", "k_dtype": str(kint.dtype), "k": kint.tolist()},
+                                                   "spoke locations %s given as %s produce a different gradient than the same locations as float64 (max |diff| %.3g): k-space is not moved by the requested increments"
+                                                   % (kint.tolist(), kint.dtype, float(np.abs(gi - gf).max()) if gi.shape == gf.shape else -1), {}))
     r.notes.append("%d spoke assemblies replayed" % nsp)
     r.count("C20", r.traces, r.evaluations, r.nontrivial)
     return r
